@@ -527,7 +527,8 @@ func c10DtoOf(rng *rand.Rand, s c10Sch) *c10Sch {
 }
 
 var c10Paths = []string{"upd_dto", "upd_dto", "upd_struct", "upd_struct", "upd_self", "updcols_struct", "upd_map", "upd_map", "update1", "updcol1", "updcols_map",
-	"save", "save", "create", "create_slice", "create_map", "create_maps", "upsert_all", "save_slice", "upsert_slice", "delete", "delete_model"}
+	"save", "save", "create", "create_slice", "create_map", "create_maps", "upsert_all", "save_slice", "upsert_slice", "delete", "delete_model",
+	"upd_struct_nomodel", "updcols_struct_nomodel"}
 
 type c10Obs struct {
 	Kind   string   `json:"kind"` // UPDATE | INSERT | none
@@ -600,6 +601,10 @@ func c10Exec(db *gorm.DB, typ reflect.Type, c *c10Case, extra func(*gorm.DB) *go
 	switch c.Path {
 	case "upd_struct":
 		return tx.Model(model()).Updates(row(0).Elem().Interface())
+	case "upd_struct_nomodel": // no Model(…) at all: the struct VALUE is model and destination (its own key is the condition AND in SET)
+		return tx.Updates(row(0).Elem().Interface())
+	case "updcols_struct_nomodel":
+		return tx.UpdateColumns(row(0).Elem().Interface())
 	case "upd_dto":
 		return tx.Model(model()).Updates(c10Build(c.Dto.Type(), *c.Dto, c.Rows[0]).Elem().Interface())
 	case "upd_self":
@@ -747,6 +752,10 @@ func c10LeanOps(exp map[string]interface{}, c *c10Case) [][]interface{} {
 		return [][]interface{}{{"c10.updstruct", exp, exp, sel, om, false, false, rows[0], c10NZ(c.Model)}}
 	case "upd_self":
 		return [][]interface{}{{"c10.updstruct", exp, exp, sel, om, true, false, rows[0], rows[0]}}
+	case "upd_struct_nomodel": // Dest (a non-addressable struct value) is also the model value: !CanAddr ⇒ destIsModel = false
+		return [][]interface{}{{"c10.updstruct", exp, exp, sel, om, false, false, rows[0], rows[0]}}
+	case "updcols_struct_nomodel":
+		return [][]interface{}{{"c10.updstruct", exp, exp, sel, om, false, true, rows[0], rows[0]}}
 	case "updcols_struct":
 		return [][]interface{}{{"c10.updstruct", exp, exp, sel, om, false, true, rows[0], c10NZ(c.Model)}}
 	case "upd_map", "update1":
@@ -802,7 +811,7 @@ func c10Expected(c *c10Case, outs []json.RawMessage) (c10Obs, string) {
 	}
 	branch := c.Path
 	switch c.Path {
-	case "upd_struct", "upd_self", "updcols_struct", "upd_dto":
+	case "upd_struct", "upd_self", "updcols_struct", "upd_dto", "upd_struct_nomodel", "updcols_struct_nomodel":
 		p := pair(outs[0])
 		o.Set, o.Where = strs(p[0]), strs(p[1])
 		if len(o.Set) > 0 {
